@@ -414,7 +414,7 @@ def measurement_shape(what, how, kinds, optmask, leave_out=None):
         observables = [o for t in rest for o in t.observables()] + [H]
         if leave_out is not None:
             observables.append(tis[leave_out].obj._scheduled)
-        return [Ob(f"{PROP}/{name}/schedule_still_admitted", "complete", valid=And(cl), observables=observables)]
+        return [Ob(f"{PROP}/{name}/schedule_still_admitted", "complete", valid=And(cl), observables=observables, timeout_ms=240000)]
 
     sh = Shape(name, build, obligations)
     if what == "due_dates":
@@ -566,6 +566,86 @@ def replay_repeated_rule(desc):
     return 0
 
 
+# --- (i) two rules declared on one problem do not interfere ----------------------------------------------
+# The composition argument of DESIGN 3.2 (completeness composes over elements whose auxiliaries are private) is
+# checked here instead of assumed, pair by pair over all constraint classes: three builds of the same small
+# problem - with C1, with C2, with both - and the solver decides that a schedule admitted with C1 alone and with
+# C2 alone is admitted with both (shared caches, shared auxiliary names, order effects would break this).
+def _make_c(cname, e, nm):
+    from checks import c10
+    return c10._make_instance(cname, e, nm)
+
+
+def pair_interference_shape(c1, c2):
+    name = f"pairs/{c1}+{c2}"
+
+    def one(cnames, pname):
+        from checks import c18
+        pb = ps.SchedulingProblem(name=pname, horizon=12)
+        e = c18._env()
+        for k, cn in enumerate(cnames):
+            _make_c(cn, e, f"under_test_{cn}_{k}")
+        return pb
+
+    def build(P):
+        phis = []
+        for cn in (c1, c2):
+            pb = one([cn], f"only_{cn}")
+            sv = ps.SchedulingSolver(problem=pb)
+            sv.initialize()
+            phis.append(list(sv._solver.assertions()))
+        pb = one([c1, c2], "both")
+        return Ctx(problem=pb, phi_1=phis[0], phi_2=phis[1])
+
+    def obligations(ctx):
+        ca, _ = formula.constants(ctx.phi)
+        c1_, _ = formula.constants(ctx.phi_1)
+        c2_, _ = formula.constants(ctx.phi_2)
+        shared = [c for n, c in ca.items() if n in c1_ and n in c2_ and "_maybe_busy_" not in n]
+        each = buffer_witness(list(ctx.phi_1)) + buffer_witness(list(ctx.phi_2))
+        return [Ob(f"{PROP}/{name}/admitted_by_each_alone_is_admitted_by_both", "complete", valid=And(each), observables=shared,
+                   phi=list(ctx.phi), transform=buffer_witness, replayer="checks.c05:replay_pair", timeout_ms=120000,
+                   extra={"vacuous_ok": True})]  # two rules may simply contradict each other
+
+    sh = Shape(name, build, obligations)
+    sh.grid = False
+    sh.pair = (c1, c2)
+    sh.one = one
+    return sh
+
+
+def replay_pair(desc):
+    import symx.harness as H
+    from symx import engine
+    from symx.harness import quiet
+
+    shape = H.get_shape(desc["module"], desc["shape"])
+    w = desc["witness"]
+    c1, c2 = shape.pair
+    res = {}
+    for key, cnames in (("first", [c1]), ("second", [c2]), ("both", [c1, c2])):
+        with quiet():
+            pb = shape.one(cnames, "replay")
+            probe = ps.SchedulingSolver(problem=pb)
+            probe.initialize()
+            consts, _ = formula.constants(list(probe._solver.assertions()))
+            k = 0
+            for nm, v in (w.get("pins") or {}).items():
+                if "!" in nm or nm not in consts or "_maybe_busy_" in nm or nm.startswith(("Selected_", "constraint_", "Indicator_", "task_group_")):
+                    continue
+                if not isinstance(v, (bool, int)) or z3.is_bool(consts[nm]) != isinstance(v, bool) or not (z3.is_int(consts[nm]) or z3.is_bool(consts[nm])):
+                    continue
+                ps.ConstraintFromExpression(name=f"__pin_{k}", expression=(consts[nm] == (z3.BoolVal(v) if isinstance(v, bool) else v)))
+                k += 1
+            res[key] = bool(ps.SchedulingSolver(problem=pb).solve())
+        engine.reset_z3_globals()
+    print(f"replay: pinned schedule: with {c1} -> {res['first']}; with {c2} -> {res['second']}; with both -> {res['both']}")
+    if res["first"] and res["second"] and not res["both"]:
+        print("CONFIRMED: a schedule admitted with each rule alone is lost when both are declared")
+        return 1
+    return 0
+
+
 # --- (d) buffers -----------------------------------------------------------------------------------
 def buffer_valid(ctx):
     acc = ctx.accesses
@@ -687,6 +767,14 @@ def shapes(tier):
         out.append(ties_shape("ResourceNonDelay", ("fixed",)))
     for cname in _constraint_classes():
         out.append(repeated_rule_shape(cname))
+    pcl = [c for c in _constraint_classes() if c not in ("ForceApplyNOptionalConstraints",)]
+    if thorough:
+        for a, b in itertools.permutations(pcl, 2):
+            out.append(pair_interference_shape(a, b))
+    else:
+        # quick: every class once on each side, paired with a neighbour of the list
+        for i, a in enumerate(pcl):
+            out.append(pair_interference_shape(a, pcl[(i + 7) % len(pcl)]))
     for what in MEASURES:
         for how in ("worker", "cumulative"):
             if what in ("due_dates", "objectives_sum", "objectives_extrema") and how == "cumulative":
@@ -697,8 +785,8 @@ def shapes(tier):
             for kinds in klist:
                 n = len(kinds)
                 heavy = how == "cumulative" and what in ("cost", "resource_cost_objective")  # forall over the sub-worker selections times a division: z3 gives up
-                if heavy and n > 2:
-                    continue
+                if heavy and (n > 2 or not thorough):
+                    continue  # (thorough only: the query takes tens of seconds and must not hit its time limit on a loaded machine)
                 out.append(measurement_shape(what, how, kinds, (False,) * n))
                 if (len(kinds) == 2 or thorough) and not heavy:
                     out.append(measurement_shape(what, how, kinds, (True,) * n))
